@@ -1296,7 +1296,10 @@ class ExecutionTracer(AbstractExecutionTracer):  # noqa: PLR0904
         exc_value: BaseException | None,
         traceback: TracebackType | None,
     ) -> None:
-        self.stop()
+        # An abandoned (timed-out) thread that unwinds later must not stop the tracer
+        # of the test case that is executing in the meantime.
+        if self._current_thread_identifier == threading.current_thread().ident:
+            self.stop()
 
     def check(self) -> None:  # noqa: D102
         if threading.current_thread().ident != self._current_thread_identifier:
